@@ -118,6 +118,9 @@ func answerBytes(a string) string {
 		// character data where the answer element is expected - followed by a real <proceed/>, which
 		// must not be honoured any more
 		return `proceed<proceed xmlns='` + nsTLS + `'/>`
+	case "whitespace":
+		// white space where the answer element is expected, then an (empty) features list in clear
+		return "\n \n<stream:features/>"
 	case "eof":
 		return ""
 	}
@@ -145,7 +148,7 @@ type peerObs struct {
 	peerErrs []string
 }
 
-func runPeer(sc Scenario, c *vt.Conn, obs *peerObs, done chan struct{}) {
+func runPeerGated(sc Scenario, c *vt.Conn, obs *peerObs, done chan struct{}, beforeAnswer, gotStartTLS, beforeHello func()) {
 	defer close(done)
 	fail := func(s string) { obs.mu.Lock(); obs.peerErrs = append(obs.peerErrs, s); obs.mu.Unlock() }
 	d := xml.NewDecoder(c)
@@ -159,6 +162,9 @@ func runPeer(sc Scenario, c *vt.Conn, obs *peerObs, done chan struct{}) {
 			break
 		}
 	}
+	if beforeHello != nil {
+		beforeHello()
+	}
 	io.WriteString(c, hdr(sc.Domain)+featBytes(sc.Feat))
 	// wait for <starttls/> (anything else is recorded by the wire tap, we just keep reading)
 	for {
@@ -169,6 +175,12 @@ func runPeer(sc Scenario, c *vt.Conn, obs *peerObs, done chan struct{}) {
 		if st, ok := tok.(xml.StartElement); ok && st.Name.Local == "starttls" {
 			break
 		}
+	}
+	if gotStartTLS != nil {
+		gotStartTLS()
+	}
+	if beforeAnswer != nil {
+		beforeAnswer()
 	}
 	if sc.Answer == "eof" {
 		c.Close()
@@ -291,10 +303,20 @@ type outcome struct {
 }
 
 func runOne(sc Scenario, startTLS xmpp.StreamFeature) outcome {
+	return runOneGated(sc, startTLS, nil, nil)
+}
+
+// runOneGated: beforeAnswer is called by the peer after it received <starttls/> and before it
+// answers; gotStartTLS is called by the peer as soon as it received <starttls/>.
+func runOneGated(sc Scenario, startTLS xmpp.StreamFeature, beforeAnswer, gotStartTLS func(), beforeHello ...func()) outcome {
 	a, b := vt.Pipe()
 	obs := &peerObs{}
 	done := make(chan struct{})
-	go runPeer(sc, b, obs, done)
+	var hello func()
+	if len(beforeHello) > 0 {
+		hello = beforeHello[0]
+	}
+	go runPeerGated(sc, b, obs, done, beforeAnswer, gotStartTLS, hello)
 	negotiated := false
 	var teeIn, teeOut bytes.Buffer
 	cfgf := func(*xmpp.Session, *xmpp.StreamConfig) xmpp.StreamConfig {
@@ -439,6 +461,38 @@ func main() {
 					mism = append(mism, vt.Ev{"what": "TeeOut does not start with the clear-text bytes written", "scenario": sc, "teeout": o.teeOut, "clear": o.wireHead})
 				}
 			}
+		}
+	}
+	// two OVERLAPPING sessions with different domains sharing one StartTLS(nil) value: session 2 sends
+	// its <starttls/> after session 1 did and before session 1's peer answers <proceed/>
+	for rep := 0; rep < 3; rep++ {
+		shared := xmpp.StartTLS(nil)
+		gate := make(chan struct{})  // closed when peer 2 has session 2's <starttls/>
+		gate1 := make(chan struct{}) // closed when peer 1 has session 1's <starttls/>
+		var wg sync.WaitGroup
+		outs := make([]outcome, 2)
+		scs := []Scenario{
+			{Script: Script{Feat: "tls_required", Answer: "proceed", Inject: "none", HS: "fail", Cfg: "default"}, Domain: "example.net"},
+			{Script: Script{Feat: "tls_optional", Answer: "proceed", Inject: "none", HS: "fail", Cfg: "default"}, Domain: "second.example"},
+		}
+		for i := range scs {
+			wg.Add(1)
+			go func(i int) {
+				defer wg.Done()
+				if i == 0 {
+					// session 1 asks for STARTTLS first; its peer answers only after session 2 asked too
+					outs[i] = runOneGated(scs[i], shared, func() { <-gate }, func() { close(gate1) })
+				} else {
+					// session 2 cannot start negotiating before session 1 has asked
+					outs[i] = runOneGated(scs[i], shared, nil, func() { close(gate) }, func() { <-gate1 })
+				}
+			}(i)
+		}
+		wg.Wait()
+		for i := range scs {
+			runs++
+			tw.Write(vt.Ev{"script": scs[i].Script, "tee": 0, "session": 10 + i}, outs[i].evs)
+			tw.Meta(scs[i])
 		}
 	}
 	if err := tw.Close(); err != nil {
